@@ -372,12 +372,13 @@ def mon_out(stream, case, obs, want):
         if cur and cur != sock_before:
             conn_open_seq.setdefault(cur, seq_at_start)
         # "handed to a connection": the client regards the message as sent on the current socket
-        if cur:
+        hc = cur or sock_before
+        if hc:
             for x in p.get("out", "[]").strip("[]").split(","):
                 if x:
                     m_, st_, _ = x.split(".")
                     if int(m_) in live and st_ in ("wpa", "wprec", "wpcomp"):
-                        live[int(m_)]["handed"].add(cur)
+                        live[int(m_)]["handed"].add(hc)
         # ownership: every live message is still held by the client
         if "own" in want and conforming:
             held = {int(x.split(".")[0]) for x in p.get("out", "[]").strip("[]").split(",") if x}
